@@ -26,6 +26,7 @@ pub fn run(cfg: &Config) -> i32 {
 	add(&mut total, pf::fam_valid_token_docs(cfg, flags, if thorough { 7 } else { 6 }));
 	add(&mut total, pf::fam_block_boundaries(cfg, flags));
 	add(&mut total, pf::fam_long_strings(cfg, flags, if cfg.san { 300 } else { 2300 }));
+	add(&mut total, pf::fam_long_lexemes(cfg, flags, if cfg.san { 200 } else { 1200 }));
 	add(&mut total, pf::fam_generated(cfg, flags, cfg.budget(100_000, 3_000_000), false));
 	add(&mut total, pf::fam_generated(cfg, flags, cfg.budget(200_000, 5_000_000), true));
 	if thorough {
